@@ -493,6 +493,27 @@ def _check(args):
                 return {"i": i, "form": form, "what": f"{name}: {which} differs from the dict input's", "variant": name,
                         "observed": {"got": (got[0] if which == "xform" else got[1:])[:1500] if which == "xform" else str(got[1:])[:1500],
                                      "want": (want[0][:1500] if which == "xform" else str(want[1:])[:1500])}}
+        # a path whose file name holds dots before the suffix: the default form id (and title) is the stem, all of it
+        if i % 4 == 2 and not isinstance(base, tuple):
+            rs = rng_for(seed, PID, "stem", i)
+            stem = rs.choice(["household.v2", "hh.2024.final", "a.b", "form.v1.0"])
+            srow = (form.get("settings") or [{}])[0]
+            keys = {"_".join(k.split()).lower() for k in srow}
+            suffix, data = rs.choice([(".xlsx", xb), (".csv", csvs.encode("utf-8"))] + ([(".md", md.encode("utf-8"))] if not multiline else []))
+            pth = os.path.join(tmpd, stem + suffix)
+            with open(pth, "wb") as fh:
+                fh.write(data)
+            try:
+                rr = convert(pth)
+            except PyXFormError as e:
+                return {"i": i, "form": form, "what": f"path {stem + suffix}: rejected ({str(e)[:150]}) while the dict input converts", "variant": "dotted-stem"}
+            root = xf.lparse(rr.xform)
+            inst_root = root.find(xf.H + "head").find(xf.XF + "model").find(xf.XF + "instance")[0]
+            title = root.find(xf.H + "head").find(xf.H + "title").text
+            if not ({"form_id", "id_string"} & keys) and inst_root.get("id") != stem:
+                return {"i": i, "form": form, "what": f"path {stem + suffix}: the default form id is {inst_root.get('id')!r}, not the file's stem {stem!r}", "variant": "dotted-stem"}
+            if not ({"form_title", "title", "form_id", "id_string"} & keys) and title != stem:
+                return {"i": i, "form": form, "what": f"path {stem + suffix}: the default title is {title!r}, not the file's stem {stem!r}", "variant": "dotted-stem"}
     finally:
         import shutil
         shutil.rmtree(tmpd, ignore_errors=True)
